@@ -1551,6 +1551,8 @@ class Interp:
             return base
         if isinstance(base, Form) and base.single_atom() in (("c", "numpy.s_"), ("c", "numpy.index_exp")):
             return idx  # np.s_[...] is the index expression itself
+        if isinstance(base, Form) and _selects_all(idx):
+            return base   # x[:] (and x[:, :]) is x as a value; aliasing is the business of the effect analysis
         if isinstance(idx, Form):
             ia = idx.single_atom()
             if ia is not None and ia[0] == "fn" and ia[1] == "loopidx" and idx == Form.atom(ia) and vkey(ia[2][0]) == vkey(as_value(base)):
@@ -1805,7 +1807,14 @@ class Interp:
             fields["signal"] = vals.get("signal", Form.atom(("opaque", "missing signal")))
             fields["noise"] = vals.get("noise", NONE)
             if cls == "optical_signal":
-                fields["n_pol"] = vals.get("n_pol", Form.atom(("fn", "n_pol_of", (as_value(fields["signal"]),), ())))
+                sig0 = fields["signal"]
+                owner = sig0.sym_name() if isinstance(sig0, Form) else None
+                if "n_pol" not in vals and owner is not None and owner.endswith(".signal"):
+                    # rebuilt from the whole signal of an existing object: the constructor derives the same layout (o.n_pol is
+                    # a function of o.signal's shape - the invariant C01.4 establishes)
+                    fields["n_pol"] = Form.sym(owner[:-len(".signal")] + ".n_pol")
+                else:
+                    fields["n_pol"] = vals.get("n_pol", Form.atom(("fn", "n_pol_of", (as_value(sig0),), ())))
             fields["execution_time"] = Form.num(0)
             if "dtype" in vals:
                 fields["__dtype__"] = vals["dtype"]
@@ -1900,12 +1909,6 @@ class Interp:
         if obj.cls in ("electrical_signal", "optical_signal"):
             if name in ("len", "__len__") and not args:
                 return mk_fn("siglen", [as_value(obj.fields.get("signal"))])
-            if name == "__getitem__" and len(args) == 1 and isinstance(args[0], SliceV) and all(
-                    isinstance(x, Const) and x.v is None for x in (args[0].lo, args[0].hi, args[0].step)):
-                c = deep_copy_value(obj)
-                c.name = None
-                c.origin = "copy"
-                return c
         if obj.cls == "binary_sequence" and name in ("len", "__len__") and not args:
             return mk_fn("size", [as_value(obj.fields.get("data"))])
         return None
@@ -2085,6 +2088,23 @@ class Interp:
                 a = a + [NONE]
             return SliceV(*a)
         return None
+
+
+def _full_slice(i):
+    return isinstance(i, SliceV) and all(isinstance(x, Const) and x.v is None for x in (i.lo, i.hi, i.step))
+
+
+def _selects_all(idx):
+    """the index keeps every element: `:`, `(:, :)`, or a merge of such alternatives (layout-dependent index built before use)"""
+    if _full_slice(idx):
+        return True
+    if isinstance(idx, TupleV):
+        return bool(idx.items) and all(_full_slice(i) for i in idx.items)
+    if isinstance(idx, Form):
+        a = idx.single_atom()
+        if a is not None and a[0] == "phi" and a[2]:
+            return all(_selects_all(x) for x in a[2])
+    return False
 
 
 def _format_as_fstr(template, args, kwargs):
